@@ -8,6 +8,7 @@ from . import common as C
 ID = 'C04'
 LEVEL = C.LEVEL
 EXPLANATION = C.EXPLANATION
+DURATION_SCALES_NOTE = 'duration shadows 5e-4, 1e-2, 300 select the recorded path in extra tasks (the obligation itself is for every positive duration)'
 ASSUMPTIONS = C.ASSUMPTIONS + ['cut points: the published coefficients (getTrajectory().getCoefficients()) and durations (getTimeSegments()) are replaced by free variables, so the identity is proved for every coefficient set, not only those the solver produces']
 FUNCTIONS = ['CubicSplineND/QuinticSplineND/SepticSplineND<DIM>::getEnergy', 'constructors (both routes) + update', 'getTrajectory().getCoefficients()', 'getTimeSegments()']
 OUTSIDE = ['rounding ("non-negative up to rounding" is proved as exact non-negativity of the closed form for N=1, DIM<=2)', 'N>4 (segments contribute independent identical terms)']
@@ -40,6 +41,9 @@ def tasks(tier, seed):
                     if route != 'dur' and (d > 2 or N > 2):
                         continue
                     T.append({'name': 'energy o%d d%d N%d %s' % (o, d, N, route), 'order': o, 'dim': d, 'N': N, 'route': route, 'seed': seed, 'timeout': to})
+        # duration scales far from 1: the recorded path is the one these shadows select (a guard such as "T below some tolerance -> skip" shows up here)
+        for sh in (5e-4, 1e-2, 300.0):
+            T.append({'name': 'energy o%d d2 N2 dur durations~%g' % (o, sh), 'order': o, 'dim': 2, 'N': 2, 'route': 'dur', 'hshadow': sh, 'seed': seed, 'timeout': to})
         T.append({'name': 'nonneg o%d' % o, 'fn': 'run_nonneg', 'order': o, 'seed': seed, 'timeout': to})
         T.append({'name': 'default o%d' % o, 'fn': 'run_default', 'order': o, 'seed': seed, 'timeout': to})
     return T
@@ -100,14 +104,17 @@ def energy_spec(E, o, d, N, cval, Tval):
 
 
 def cut_scenario(t, s, pr, o, d, N):
-    g0 = D.run(build.spline_tu(o, d), s.text())
+    so = None
+    if t.get('hshadow'):
+        so = {h: t['hshadow'] * (1 + 0.3 * i) for i, h in enumerate(pr.h)}
+    g0 = D.run(build.spline_tu(o, d), s.text(None, so))
     cuts = {}
     for r in range(N * C.NC[o]):
         for dd in range(d):
             cuts[g0.outs['c.%d.%d' % (r, dd)]] = 'cc_%d_%d' % (r, dd)
     for i in range(N):
         cuts[g0.outs['m.seg.%d' % i]] = 'T%d' % i
-    sc = O.Scenario(ID, t['name'], build.spline_tu(o, d), s, timeout=t['timeout'], enc_kwargs={'cuts': cuts}, dag=g0)
+    sc = O.Scenario(ID, t['name'], build.spline_tu(o, d), s, timeout=t['timeout'], enc_kwargs={'cuts': cuts}, dag=g0, shadow_override=so)
     E = sc.enc
     for i in range(N):
         sc.assume.append(E.var('T%d' % i) > 0)
